@@ -214,7 +214,7 @@ pub fn drive_corpus(corpus: &str, seed: u64, thorough: bool, w: &mut NdWriter) -
   let per_file_cut = if thorough { 60 } else { 10 };
   let per_file_near = if thorough { 40 } else { 6 };
   let per_file_broken = if thorough { 40 } else { 8 };
-  let (mut n_cut, mut n_near, mut n_self, mut n_broken) = (0, 0, 0, 0);
+  let (mut n_cut, mut n_near, mut n_self, mut n_broken, mut n_zero) = (0, 0, 0, 0, 0);
   let mut langs = std::collections::BTreeSet::new();
   for (l, path, text) in util::corpus(corpus) {
     let g = l.ast_grep(&text);
@@ -247,6 +247,28 @@ pub fn drive_corpus(corpus: &str, seed: u64, thorough: bool, w: &mut NdWriter) -
       if let Some(r) = match_record(&format!("{path}#cut{i}"), l, &pat, &site, json!({"mode": "cut", "holes": hs, "tail": tl})) {
         w.put(&r);
         n_cut += 1;
+      }
+    }
+    // (e) every site with a real zero-width descendant (an empty raw string, an empty heredoc body: named nodes the
+    // parser reports with no text, which are not MISSING nodes): the code matches itself, with and without holes
+    let zero: Vec<N> = sites.iter().filter(|s| s.dfs().any(|d| d.range().is_empty() && !d.get_ts_node().is_missing())).cloned().collect();
+    for (i, site) in zero.iter().enumerate().take(if thorough { 200 } else { 40 }) {
+      let p = proj::project(site, false);
+      if let Some(r) = match_record(&format!("{path}#zself{i}"), l, &site.text(), site,
+        json!({"mode": "cut", "holes": [], "tail": {"name": "", "ids": []}})) {
+        w.put(&r);
+        n_zero += 1;
+      }
+      if let Some((pat, holes, tail)) = cut(site, &mut rng, i % 2 == 1) {
+        let hs: Vec<Value> = holes.iter().map(|(n, d)| json!({"name": n, "id": p.id_of(d)})).collect();
+        let tl = match &tail {
+          None => json!({"name": "", "ids": []}),
+          Some((n, run)) => json!({"name": n, "ids": run.iter().map(|d| p.id_of(d)).collect::<Vec<_>>()}),
+        };
+        if let Some(r) = match_record(&format!("{path}#zcut{i}"), l, &pat, site, json!({"mode": "cut", "holes": hs, "tail": tl})) {
+          w.put(&r);
+          n_zero += 1;
+        }
       }
     }
     // (c) near misses: a pattern cut at one site against other nodes of the same kind
@@ -297,7 +319,7 @@ pub fn drive_corpus(corpus: &str, seed: u64, thorough: bool, w: &mut NdWriter) -
       }
     }
   }
-  json!({"corpus_cut": n_cut, "corpus_self": n_self, "corpus_near": n_near, "corpus_broken": n_broken, "languages": langs})
+  json!({"corpus_cut": n_cut, "corpus_self": n_self, "corpus_near": n_near, "corpus_broken": n_broken, "corpus_zero_width": n_zero, "languages": langs})
 }
 
 /// C04, first clause, for single patterns: a variable that occurs twice; candidates whose two sub-terms are identical,
@@ -317,6 +339,20 @@ pub fn drive_repeated(w: &mut NdWriter) -> usize {
     (ts, "foo($A, $A)", vec!["foo(new Foo, new Foo<T>())", "foo(new Foo<T>(), new Foo<T>())", "foo(a as T, a as T)", "foo(a!, a!.b)"]),
     (py, "foo($A, $A)", vec!["foo(lambda: 1, lambda: 1)", "foo(a.b, a.b.c)", "foo(a.b, a.b)", "foo(not a, not a)", "foo(x if c else y, x if c else y)", "foo(-a, -a)"]),
     (py, "[$A, $A]", vec!["[a, a]", "[a, b]", "[f(a), f(a, b)]", "[f(a), f(a)]"]),
+    // `$$$A` twice: the runs agree on their named nodes; the first occurrence may be the empty one
+    (js, "pair(f($$$A), g($$$A))", vec!["pair(f(), g(1, 2))", "pair(f(1, 2), g())", "pair(f(), g())", "pair(f(1, 2), g(1, 2))", "pair(f(1, 2), g(1, 3))", "pair(f(1), g(1, 2))",
+                                        "pair(f(1, 2,), g(1, 2))", "pair(f(a.b), g(a.b.c))"]),
+    (js, "if (c) { $$$B } else { $$$B }", vec!["if (c) { } else { launch(); }", "if (c) { launch(); } else { }", "if (c) { a(); } else { a(); }", "if (c) { a(); b(); } else { a(); }",
+                                               "if (c) { } else { }", "if (c) { a(); /* x */ } else { a(); }"]),
+    // anonymous tokens after the ellipsis in the pattern stand for trailing anonymous tokens only
+    (js, "pair(f($$$A,), g($$$A))", vec!["pair(f(a, b), g(a))", "pair(f(a, b), g(a, b))", "pair(f(a, b,), g(a, b))", "pair(f(a), g(a))", "pair(f(), g())", "pair(f(a /* c */), g(a))"]),
+    (js, "foo($$$A,)", vec!["foo(a, b)", "foo(a, b,)", "foo(a)", "foo()", "foo(a /* c */)", "foo(a, /* c */)"]),
+    (js, "[$$$A, ]", vec!["[a, b]", "[a, b, ]", "[a, , ]", "[, ]", "[]"]),
+    (py, "foo($$$A,)", vec!["foo(a, b)", "foo(a, b,)", "foo(a)", "foo()"]),
+    (rs, "foo($$$A,)", vec!["foo(a, b)", "foo(a, b,)", "foo(a)", "foo()"]),
+    (js, "[[$$$A], $$$A]", vec!["[[], 1, 2]", "[[1, 2], 1, 2]", "[[1, 2]]", "[[1], 1, 2]", "[[]]"]),
+    (py, "pair(f($$$A), g($$$A))", vec!["pair(f(), g(1, 2))", "pair(f(1, 2), g())", "pair(f(1, 2), g(1, 2))", "pair(f(1), g(2))"]),
+    (rs, "pair(f($$$A), g($$$A))", vec!["pair(f(), g(1, 2))", "pair(f(1, 2), g())", "pair(f(1, 2), g(1, 2))", "pair(f(), g())"]),
     (rs, "foo($A, $A)", vec!["foo(a.b, a.b)", "foo(a.b, a.b.c)", "foo(x as u8, x as u8)", "foo(&a, &a.b)", "foo(return, return 1)", "foo(break, break 'l)"]),
   ];
   let mut n = 0;
